@@ -59,12 +59,19 @@ POOL = [
     ([0.1, 0.4, 0.7], "right"),
     ([0.1, 1.0], "right"),
     ([0.1, 0.4, 0.7, 1.0, 1.2], "right"),
+    # other zmin: with a physical scale the maximum pair separation, and therefore the set of
+    # linked patch pairs, differs from the binnings above
+    ([0.6, 0.8, 1.0, 1.2], "right"),
+    ([0.6, 1.2], "right"),
+    # narrow lowest bin: its centre is close to zmin, so pairs out to almost the linking angle count
+    ([0.1, 0.14, 0.7, 1.2], "right"),
 ]
 SCALE = dict(rmin=0.5, rmax=4.0, unit="deg")
+SCALE_PHYSICAL = dict(rmin=2000.0, rmax=25000.0, unit="kpc")
 
 
 def gen_cases(tier: str, verif_seed: int, runs: int | None = None) -> list[dict]:
-    n = runs if runs is not None else (16 if tier == "quick" else 64)
+    n = runs if runs is not None else (16 if tier == "quick" else 480)
     cases = []
     for i in range(n):
         prng = Prng(mix(verif_seed, PROP, i))
@@ -75,7 +82,9 @@ def gen_cases(tier: str, verif_seed: int, runs: int | None = None) -> list[dict]
                 data_seed=prng.below(1 << 30),
                 k=prng.randint(2, 4),
                 n=prng.randint(30, 70),
-                max_examples=30 if tier == "quick" else 1200,
+                max_examples=30 if tier == "quick" else 60,
+                geometry=prng.choice(["box", "clumps"]),
+                scale=prng.choice(["deg", "kpc"]),
                 steps=8,
             )
         )
@@ -122,10 +131,11 @@ def shrinks(case: dict):
 # --------------------------------------------------------------------- model
 def _scene(case: dict) -> dict:
     return dict(
-        data_seed=case["data_seed"], region="box", k=case["k"],
+        data_seed=case["data_seed"], region=case.get("geometry", "box"), k=case["k"],
         n_ref=case["n"], n_unk=case["n"], n_rref=case["n"] + 7, n_runk=case["n"] + 3,
         w_ref=True, w_unk=False, w_rref=False, w_runk=True, z_unk=True, z_runk=True,
-        chunksize=None, edges=[0.1, 0.4, 0.7, 1.0, 1.2], closed="right", scale=dict(SCALE),
+        chunksize=None, edges=[0.1, 0.4, 0.7, 1.0, 1.2], closed="right",
+        scale=dict(SCALE_PHYSICAL if case.get("scale") == "kpc" else SCALE),
     )
 
 
@@ -140,8 +150,9 @@ def build_template(case: dict, tpl: str) -> bool:
     return True
 
 
-def _config(edges, closed):
-    return wl.make_config(dict(SCALE, edges=list(edges), closed=closed))
+def _config(edges, closed, case=None):
+    scale = SCALE_PHYSICAL if (case or {}).get("scale") == "kpc" else SCALE
+    return wl.make_config(dict(scale, edges=list(edges), closed=closed))
 
 
 class Model:
@@ -304,7 +315,7 @@ class Model:
         import yaw
 
         edges, closed = POOL[pool_idx]
-        cfg = _config(edges, closed)
+        cfg = _config(edges, closed, self.case)
 
         def fn(cats, mw):
             rk = {}
@@ -327,7 +338,7 @@ class Model:
         import yaw
 
         edges, closed = POOL[pool_idx]
-        cfg = _config(edges, closed)
+        cfg = _config(edges, closed, self.case)
         data, rand = (("ref", "rref"), ("unk", "runk"))[which]
 
         def fn(cats, mw):
@@ -342,7 +353,7 @@ class Model:
         import yaw
 
         edges, closed = POOL[pool_idx]
-        cfg = _config(edges, closed)
+        cfg = _config(edges, closed, self.case)
 
         def fn(cats, mw):
             return orc.sampled_state(yaw.HistData.from_catalog(cats[name], cfg, max_workers=mw))
